@@ -180,6 +180,9 @@ impl fmt::Display for ObjUpvalueState {
 pub struct ObjUpvalue {
     data: ObjUpvalueState,
     pub(crate) next: Option<Gc<RefCell<ObjUpvalue>>>,
+    // The fiber whose value stack an open upvalue points into. Tracing it keeps the captured slot alive
+    // for as long as the variable still lives on that stack.
+    owner: Option<Gc<RefCell<ObjFiber>>>,
 }
 
 impl ObjUpvalue {
@@ -187,6 +190,15 @@ impl ObjUpvalue {
         ObjUpvalue {
             data: ObjUpvalueState::Open(address),
             next: None,
+            owner: None,
+        }
+    }
+
+    pub(crate) fn with_owner(address: *mut Value, owner: Gc<RefCell<ObjFiber>>) -> Self {
+        ObjUpvalue {
+            data: ObjUpvalueState::Open(address),
+            next: None,
+            owner: Some(owner),
         }
     }
 
@@ -221,6 +233,7 @@ impl ObjUpvalue {
     pub fn close(&mut self) {
         let value = self.get();
         self.data = ObjUpvalueState::Closed(value);
+        self.owner = None;
     }
 }
 
@@ -233,6 +246,9 @@ impl GcManaged for ObjUpvalue {
         if let Some(u) = self.next.as_ref() {
             u.mark();
         }
+        if let Some(f) = self.owner.as_ref() {
+            f.mark();
+        }
     }
 
     fn blacken(&self) {
@@ -242,6 +258,9 @@ impl GcManaged for ObjUpvalue {
         }
         if let Some(u) = self.next.as_ref() {
             u.blacken();
+        }
+        if let Some(f) = self.owner.as_ref() {
+            f.blacken();
         }
     }
 }
